@@ -80,7 +80,7 @@ class eval_between:
 
 @contract(f'{QC}:EvalAnd.__call__')
 class eval_and:
-    props = ['C01']
+    props = ['C01', 'C04']
     assumes = [PURE]
     params = {'self': node('EvalAnd', args=ListOf(Child())), 'context': CTX}
     modifies = []
@@ -93,12 +93,14 @@ class eval_and:
                        and all(bool(ev(self.args[j], context)) for j in range(k))
                        and result == (None if ev(self.args[k], context) is None else False)
                        for k in range(n)))
-    ensures = [('stops-at-first-null-or-false', _post)]
+    ensures = [('stops-at-first-null-or-false', _post),
+               # the node announces bool: the value is NULL or one of the two truth values themselves, never the (falsy) operand
+               ('value-is-null-or-a-truth-value', lambda result: result is None or result is True or result is False)]
 
 
 @contract(f'{QC}:EvalOr.__call__')
 class eval_or:
-    props = ['C01']
+    props = ['C01', 'C04']
     assumes = [PURE]
     params = {'self': node('EvalOr', args=ListOf(Child())), 'context': CTX}
     modifies = []
@@ -111,7 +113,8 @@ class eval_or:
         n = len(self.args)
         return result == (True if any(bool(ev(self.args[j], context)) for j in range(n))
                           else (None if any(ev(self.args[j], context) is None for j in range(n)) else False))
-    ensures = [('true-if-any-true-else-null-if-any-null', _post)]
+    ensures = [('true-if-any-true-else-null-if-any-null', _post),
+               ('value-is-null-or-a-truth-value', lambda result: result is None or result is True or result is False)]
 
 
 @contract(f'{QC}:EvalCoalesce.__call__')
